@@ -49,7 +49,7 @@ pub open spec fn holds(l: network::Layer, w: Tensor, b: Option<Tensor>) -> bool 
     }
 }
 
-//@unit feedback.coupled prop=C10
+//@unit feedback.coupled prop=C10 search=feedback.tied
 // region of Feedback::create: the groups of unrolled layer indices that share parameters
 #[verifier::loop_isolation(false)]
 fn coupled_region(length: usize, loops: usize) -> (coupled: Vec<Vec<usize>>)
@@ -94,7 +94,7 @@ proof fn lemma_groups_cover(length: int, loops: int, k: int)
     assert((k / length) * length == length * (k / length)) by (nonlinear_arith);
 }
 
-//@unit feedback.write_back prop=C10
+//@unit feedback.write_back prop=C10 search=feedback.tied
 // region of Feedback::update: the last loop over a couple, which overwrites every member with the accumulated value
 impl Feedback {
 fn write_back(&mut self, couple: &Vec<usize>, weight: Tensor, bias: Option<Tensor>)
